@@ -349,3 +349,49 @@ def rule_no_inplace_growth(ctx: Ctx, rep: Report, rule: str, module_prefixes: tu
                        f"`{norm(d)[:60]}` then `{norm(aug)[:40]}`: when `{norm(arms[0])}` is a bytearray the += extends the caller's own object")
     rep.ob(rule, "scanned", True, "btclib:1", f"{n} grown aliases of parameters or their fields found in {module_prefixes}")
     rep.floor(rule, floor)
+
+
+SUM_CALLEES = {"multi_mult_var", "_multi_mult_var", "nonce_agg", "pub_key_sum", "prv_key_sum", "key_agg", "partial_sig_agg", "partial_sigs_agg"}
+POSITION_KEYED = {"eligible_pub_keys": "returns dict[int, Point] keyed by input index: one entry per eligible input"}
+
+
+def rule_terms_are_a_multiset(ctx: Ctx, rep: Report, rule: str, module_prefixes: tuple[str, ...], floor: int) -> None:
+    """What is handed to a sum over terms (a multi-scalar multiplication, a nonce
+    / key / share aggregation) is one term per seat: two equal terms are two
+    terms. The argument is therefore never built through a set, or through a
+    dict keyed by the term (`dict(zip(points, scalars))`, `{x: ...}`), whose
+    construction keeps one of the equal terms and drops the rest -- the sum is
+    then another sum, silently. `.values()` of a dict keyed by position is
+    fine and is a reviewed table."""
+    from sa.canon import expand
+    n = 0
+    for q, fi in sorted(ctx.prog.functions.items()):
+        if not any(q.startswith(p_) for p_ in module_prefixes):
+            continue
+        for c in own_nodes(fi.node):
+            if not (isinstance(c, ast.Call) and call_name(c) in SUM_CALLEES and c.args):
+                continue
+            for a in c.args[:2]:
+                if isinstance(a, ast.Constant):
+                    continue
+                n += 1
+                text = str(expand(fi, a))
+                try:
+                    tree = ast.parse(text, mode="eval")
+                except SyntaxError:
+                    continue
+                bad = [x for x in ast.walk(tree) if isinstance(x, (ast.Set, ast.SetComp, ast.DictComp)) or
+                       (isinstance(x, ast.Call) and call_name(x) in ("set", "frozenset", "dict", "fromkeys", "values", "keys", "items"))]
+                # `.values()` of a dict keyed by position (annotated dict[int, ...] by the function that builds it) is one per seat
+                why = None
+                vals = [x for x in bad if isinstance(x, ast.Call) and call_name(x) in ("values",)]
+                if bad and len(vals) == len(bad):
+                    srcs = [call_name(x.func.value) if isinstance(x.func, ast.Attribute) and isinstance(x.func.value, ast.Call) else None for x in vals]
+                    if all(s_ in POSITION_KEYED for s_ in srcs):
+                        why = POSITION_KEYED[srcs[0]]
+                key = f"{q}:{call_name(c)}({str(norm(a))[:40]})"
+                if bad and why is None:
+                    rep.ob(rule, key, False, fi.where(c), f"the terms pass through `{norm(bad[0])[:60]}`: equal terms collapse into one and the sum is short")
+                else:
+                    rep.ob(rule, key, True, fi.where(c), f"reviewed: {why}" if bad else "one term per seat")
+    rep.floor(rule, floor)
